@@ -156,9 +156,9 @@ def gen_inc_case(rng, base, k):
             if rng.random() < (0.35 if d == 'src' else 0.55):
                 body = ['T_%s_%s' % (d, n[:2])]
                 for n2 in names[ni + 1:]:
-                    if rng.random() < 0.4: body.append('#include <%s>' % n2)
+                    if rng.random() < 0.4: body.append(('#include <%s>' if rng.random() < 0.5 else '#include "%s"') % n2)      # a quoted include is searched next to THIS file first
                 if d != 'src' and rng.random() < 0.4: body.append('#include_next <%s>' % n)
-                body.append('E_%s_%s' % (d, n[:2]))
+                if not body[-1].startswith('#include') or rng.random() < 0.5: body.append('E_%s_%s' % (d, n[:2]))             # else the include is the last line of the file
                 shape = rng.random()
                 g = 'G_%s_%s' % (d.upper(), n[:2].upper())
                 if shape < 0.25: text = '#ifndef %s\n#define %s\n%s\n#endif\n' % (g, g, '\n'.join(body))
@@ -166,7 +166,7 @@ def gen_inc_case(rng, base, k):
                 elif shape < 0.45: text = '#ifndef %s\n#define %s\n#endif\n%s\n#ifdef NEVER_%d\nnever\n#endif\n' % (g, g, '\n'.join(body), k)      # not a guard: text outside
                 elif shape < 0.55: text = '#ifndef %s\n#define %s\n%s\n#else\nAGAIN_%s_%s\n#endif\n' % (g, g, '\n'.join(body), d, n[:2])           # not a guard: #else
                 elif shape < 0.62: text = '#ifndef %s\n#define %s\n#if 1\n%s\n#endif\n#endif\n' % (g, g, '\n'.join(body))                            # guard with nested #if
-                else: text = '\n'.join(body) + '\n'
+                else: text = '\n'.join(body) + ('\n' if rng.random() < 0.8 else '')
                 files[(d, n)] = text
     local = {}
     for j in range(2):
